@@ -226,9 +226,7 @@ def check_decoded(snap, grid, sel, decoded):
     pieces = sorted(moves_of(q) for r in decoded for q in split_at_depot(r))
     if pieces != routes:
         return f"decoded routes {decoded} differ from the route decomposition {routes}"
-    firsts = [moves_of(r)[0] for r in decoded]
-    if firsts != sorted(firsts):
-        return f"decoded routes are not ordered by their first move: {decoded}"
+    # (the order in which the routes are listed is not part of the property; it is compared with the model)
     return None
 
 
@@ -283,8 +281,11 @@ def decode_lit(x, res):
 
 
 def describe(inst):
-    return {"nodes": [list(n) for n in inst["nodes"]], "depot": inst["depot"],
-            "arcs": [list(a) for a in inst["arcs"]], "grid": list(inst["grid"])}
+    d = {"nodes": [list(n) for n in inst["nodes"]], "depot": inst["depot"],
+         "arcs": [list(a) for a in inst["arcs"]], "grid": list(inst["grid"])}
+    if inst.get("lookup_first"):
+        d["lookup_first"] = True
+    return d
 
 
 def shrink_instance(inst, fails):
@@ -376,3 +377,65 @@ def gen_feasible(rng, max_vars_hint=14):
     rng.shuffle(alist)
     nlist = [nodes[n] for n in names]
     return {"nodes": nlist, "depot": "D", "arcs": alist, "grid": grid, "pos_cc": True}
+
+
+def routes_valid(rp, x, require_routes=True):
+    """Independent validity check of a vector on a real ArcBasedRoutingProblem `rp` (pure Python; it reads
+    only the graph data, the time grid and var_mapping, never the constraint matrix).
+
+    Returns (True, "") iff x is a 0/1 vector of the right length whose selected tuples (i,s,j,t)
+      * use existing arcs, with s and t grid times inside the windows of i and j and s + travel time <= t,
+      * balance at every non-depot (node, time): as many selected moves arrive as leave,
+      * enter every customer exactly once (and therefore leave it exactly once),
+      * and (require_routes) split into depot-to-depot routes that use every selected move exactly once
+        (this excludes closed customer cycles, which only exist with zero travel times).
+    Otherwise (False, reason)."""
+    rp.get_num_variables()
+    nodes = [(float(n.time_window[0]), float(n.time_window[1])) for n in rp.nodes]
+    arcs = {(int(i), int(j)): float(a.travel_time) for (i, j), a in rp.arcs.items()}
+    grid = [float(t) for t in rp.time_points]
+    vm = [(int(v[0]), float(v[1]), int(v[2]), float(v[3])) for v in rp.var_mapping]
+    xs = [float(q) for q in x]
+    if len(xs) != len(vm):
+        return False, f"vector has length {len(xs)}, the model has {len(vm)} variables"
+    if any(q not in (0.0, 1.0) for q in xs):
+        return False, "vector is not binary"
+    sel = [v for v, q in zip(vm, xs) if q == 1.0]
+    for (i, s, j, t) in sel:
+        if (i, j) not in arcs:
+            return False, f"selected move {(i, s, j, t)} uses a non-existing arc"
+        if s not in grid or t not in grid:
+            return False, f"selected move {(i, s, j, t)} uses a time that is not on the grid"
+        if not (nodes[i][0] <= s <= nodes[i][1]) or not (nodes[j][0] <= t <= nodes[j][1]):
+            return False, f"selected move {(i, s, j, t)} violates a time window"
+        if not s + arcs[(i, j)] <= t:
+            return False, f"selected move {(i, s, j, t)} arrives before departure + travel time"
+    ncust = len(nodes) - 1
+    for j in range(1, ncust + 1):
+        ins = [v for v in sel if v[2] == j]
+        outs = [v for v in sel if v[0] == j]
+        if len(ins) != 1:
+            return False, f"customer {j} is entered {len(ins)} times"
+        for t in sorted(set([v[3] for v in ins] + [v[1] for v in outs])):
+            a = sum(1 for v in ins if v[3] == t)
+            b = sum(1 for v in outs if v[1] == t)
+            if a != b:
+                return False, f"flow is not balanced at node {j}, time {t}: {a} in, {b} out"
+    if require_routes:
+        remaining = sorted(sel)
+        seen = []
+        for m in [v for v in remaining if v[0] == 0]:
+            remaining.remove(m)
+            cur = (m[2], m[3])
+            while cur[0] != 0:
+                seen.append(cur[0])
+                nxt = [v for v in remaining if (v[0], v[1]) == cur]
+                if not nxt:
+                    return False, f"no selected move leaves {cur}"
+                remaining.remove(nxt[0])
+                cur = (nxt[0][2], nxt[0][3])
+        if remaining:
+            return False, f"selected moves {remaining} are on no depot-to-depot route"
+        if sorted(seen) != list(range(1, ncust + 1)):
+            return False, "the routes do not visit every customer exactly once"
+    return True, ""
